@@ -156,8 +156,20 @@ pub fn generate_history(corpus: &[Project], seed: u64, property: &str, flavour: 
     let mut written: BTreeSet<String> = BTreeSet::new();
     let mut active_faults: Vec<(String, String, usize)> = vec![]; // kind, file, steps left
     let mut any_resolve_fault = false;
+    let mut gen_faults: BTreeMap<String, u64> = BTreeMap::new();
     let seeds2 = |rng: &mut Rng| vec![rng.next(), rng.next()];
 
+    // a host fault may already be active when the very first build reads the files
+    if host_faults && rng.chance(1, 2) && !fs.is_empty() {
+        let files: Vec<&String> = fs.keys().collect();
+        let f = (*rng.pick(&files)).clone();
+        let kind = if rng.chance(2, 3) { "read_error" } else { "resolve_error" };
+        if kind == "resolve_error" {
+            any_resolve_fault = true;
+        }
+        ops.push(Op::FaultOn { kind: kind.into(), f: f.clone() });
+        active_faults.push((kind.into(), f, rng.range(1, 3)));
+    }
     // watch mode always starts with exec(); API histories mostly do, sometimes they register first
     if watch || rng.chance(3, 4) {
         ops.push(Op::Rebuild { api: "string".into() });
@@ -212,11 +224,14 @@ pub fn generate_history(corpus: &[Project], seed: u64, property: &str, flavour: 
                             }
                         } else if p_lost > 0 && rng.chance(p_lost, 8) {
                             // lost: re-issued at heal
+                            *gen_faults.entry("lost_notification".into()).or_insert(0) += 1;
                         } else if p_delay > 0 && rng.chance(p_delay, 8) {
+                            *gen_faults.entry("delayed_notification".into()).or_insert(0) += 1;
                             pending.push(f);
                         } else {
                             ops.push(Op::Deliver { f: f.clone() });
                             if p_dup > 0 && rng.chance(p_dup, 8) {
+                                *gen_faults.entry("dup_notification".into()).or_insert(0) += 1;
                                 ops.push(Op::Deliver { f });
                             }
                         }
@@ -288,6 +303,7 @@ pub fn generate_history(corpus: &[Project], seed: u64, property: &str, flavour: 
         variants: vec![],
         violation_class: String::new(),
         observed: serde_json::Value::Null,
+        gen_faults,
     }
 }
 
@@ -333,7 +349,7 @@ pub fn generate_c10(corpus: &[Project], seed: u64, index: u64, k: usize) -> Run 
         }
     }
     let fs = {
-        let r = Run { engine: String::new(), property: String::new(), root_seed: 0, run_index: 0, label: String::new(), project: project.clone(), session_hash_seed: 0, cpu_mask: String::new(), mode: String::new(), ops: ops.clone(), variants: vec![], violation_class: String::new(), observed: serde_json::Value::Null };
+        let r = Run { engine: String::new(), property: String::new(), root_seed: 0, run_index: 0, label: String::new(), project: project.clone(), session_hash_seed: 0, cpu_mask: String::new(), mode: String::new(), ops: ops.clone(), variants: vec![], violation_class: String::new(), observed: serde_json::Value::Null, gen_faults: Default::default() };
         crate::exec::final_fs(&r)
     };
     let files: Vec<String> = fs.keys().cloned().collect();
@@ -383,5 +399,6 @@ pub fn generate_c10(corpus: &[Project], seed: u64, index: u64, k: usize) -> Run 
         variants,
         violation_class: String::new(),
         observed: serde_json::Value::Null,
+        gen_faults: Default::default(),
     }
 }
